@@ -225,6 +225,15 @@ impl<'tcx> Ctx<'tcx> {
                 self.note_adt(adt.did());
             }
         }
+        // aggregates of constants (`const SUFFIXES: [&str; 3] = [..]`): the evaluated value, pretty-printed, so that the string /
+        // integer elements can be read out of it
+        if matches!(ty.kind(), ty::Array(..) | ty::Tuple(..)) || matches!(ty.kind(), ty::Ref(_, inner, _) if matches!(inner.kind(), ty::Array(..) | ty::Slice(..) | ty::Tuple(..))) {
+            let tenv = TypingEnv::post_analysis(tcx, did);
+            if let Ok(val) = c.const_.eval(tcx, tenv, c.span) {
+                let shown: String = full!(format!("{}", Const::Val(val, ty)));
+                o.push(("evaluated", J::Str(shown.chars().take(600).collect())));
+            }
+        }
         o.push(("other", J::Str(full!(format!("{}", c.const_)))));
         J::obj(o)
     }
